@@ -123,6 +123,15 @@ static unsigned long ref_call(int id, int kind, const char *text, unsigned long 
 #define REFOPEN_MAX 64
 static struct { char name[160]; int n; } refopen[REFOPEN_MAX];
 static int nrefopen;
+/* A read of a config stream that fails once (EINTR) and would work again.  What the stream had delivered is used up by then, so the
+   lines that end before that point have been read whole; the line the failure fell into cannot be had any more (fgets() gives up a
+   line it has begun).  Reading (ref_use_cut = 1): the file ends there -- a failed read is the end of the file, as the library has
+   always taken it.  The other reading a correct parser may take is that of a reader that loses nothing (its own buffering, a
+   retry that lands on a line boundary): the whole file (ref_use_cut = 0).  Delivering the rest of a broken line as a line of its
+   own is neither. */
+static int ref_use_cut = 1;
+static size_t ref_cut = (size_t)-1;
+static int ref_cut_used;
 static int ref_open_ok(const char *name)
 {
     int j = 0, how;
@@ -131,6 +140,9 @@ static int ref_open_ok(const char *name)
 have:
     how = simfs_openlog_get(name, j);
     ref_open_idx++;
+    ref_cut = (size_t)-1;
+    if (how >= 0 && ref_use_cut && simfs_openlog_last_sid)
+        for (int q = 0; q < simfd_ntransient; q++) if (simfd_transient_log[q].stream == simfs_openlog_last_sid) { ref_cut = simfd_transient_log[q].pos; break; }
     return how < 0 ? 1 : how;           /* never opened by the library: nothing scripted can have hit it */
 }
 static char *ref_word2(const char *s)
@@ -209,7 +221,9 @@ static void ref_file(const char *path, int is_root)
     const unsigned char *data; size_t len, pos = 0;
     static char line[21000];
     int first = 1, how;
+    size_t cut;
     if (!(how = ref_open_ok(path))) { ref_include_fail++; return; }
+    cut = ref_cut;
     if (!conf_tree_get(path, &data, &len)) { ref_include_fail++; return; }     /* absent, or a directory: nothing can be read from it */
     if (how == 2) { ref_include_fail++; ref_unreadable++; return; }              /* opened but unreadable: no first line, so rejected */
     if (!len) ref_empty_file++;
@@ -220,6 +234,12 @@ static void ref_file(const char *path, int is_root)
         while (e < len && data[e] != '\n') e++;
         if (e < len) { nl = 1; e++; }
         n = e - pos;
+        if (cut != (size_t)-1 && (e > cut || !nl)) {
+            /* the read failed inside (or right in front of) this line: the file ends here; a first line lost this way is a missing magic */
+            ref_cut_used++;
+            if (first) { ref_include_fail++; if (!is_root) ref_include_depth--; return; }
+            break;
+        }
         if (!first && n - (size_t)nl >= CONFIG_BUFF - 1) {
             /* a line that does not fit the line buffer (20479 characters or more): reported and skipped as a whole -- not delivered, not
                delivered in pieces, and the line after it is delivered as usual */
@@ -412,7 +432,7 @@ static void exec_c09(const plan_t *p)
                 unsigned long tok_at_entry = tok_counter;
                 int ng = ngot;
                 memcpy(stk_save, stk, sizeof(stk));
-                simfs_openlog_reset();
+                simfs_openlog_reset(); simfd_ntransient = 0;
                 if (plan_get(p, "altdir", 0)) { ret = (char *)spifconf_parse((spif_charptr_t)name, (spif_charptr_t)NULL, (spif_charptr_t)"/x:/cfg/alt"); probe_hit("root_found_through_search_path"); }
                 else if (o->a[0]) ret = (char *)spifconf_parse((spif_charptr_t)name, (spif_charptr_t)(o->a[0] == 2 ? "/cfg" : NULL), (spif_charptr_t)"/nonexistent:/cfg:/tmp");
                 else ret = (char *)spifconf_parse((spif_charptr_t)name, NULL, NULL);
@@ -420,20 +440,32 @@ static void exec_c09(const plan_t *p)
                 parse_ok = ret != NULL;
                 if (ret) sim_free(ret);
                 /* the reference follows (it reads the tree and the record of what the simulated fopen did to which file) */
-                { int ngot_after = ngot; ngot = ng; run_reference(name, o, entry_ctx, ng, tok_at_entry, 0); ngot = ngot_after; }
-                if (ref_eof_nonl) {
-                    /* a last line without a newline: accepted whether it is delivered or dropped, as long as the parse treats every such line the
-                       same way.  Which reading the library took shows in the calls it made -- and, where such a line reaches no recorded handler
-                       (an end, a begin of an unknown block), in the depth of the context stack it left */
-                    compare_quiet = 1;
-                    if (!compare_traces("parse") || depth != simacc_ctx_depth()) {
-                        memcpy(stk, stk_save, sizeof(stk));
-                        run_reference(name, o, entry_ctx, ng, tok_at_entry, 1);
-                        probe_hit("unterminated_last_line_delivered");
+                for (int reading = simfd_ntransient ? 0 : 1; reading < 2; reading++) {
+                    /* reading 0 (only where a read failed once during this parse): the file ended at the failed read; reading 1: nothing was
+                       lost.  The first that fits is taken; the last one is the one that reports */
+                    int ok;
+                    ref_use_cut = reading == 0; ref_cut_used = 0;
+                    memcpy(stk, stk_save, sizeof(stk));
+                    { int ngot_after = ngot; ngot = ng; run_reference(name, o, entry_ctx, ng, tok_at_entry, 0); ngot = ngot_after; }
+                    if (ref_eof_nonl) {
+                        /* a last line without a newline: accepted whether it is delivered or dropped, as long as the parse treats every such line the
+                           same way.  Which reading the library took shows in the calls it made -- and, where such a line reaches no recorded handler
+                           (an end, a begin of an unknown block), in the depth of the context stack it left */
+                        compare_quiet = 1;
+                        if (!compare_traces("parse") || depth != simacc_ctx_depth()) {
+                            memcpy(stk, stk_save, sizeof(stk));
+                            run_reference(name, o, entry_ctx, ng, tok_at_entry, 1);
+                            probe_hit("unterminated_last_line_delivered");
+                        }
+                        compare_quiet = 0;
                     }
+                    compare_quiet = reading == 0;
+                    ok = compare_traces("parse");
                     compare_quiet = 0;
+                    if (reading == 0 && ref_cut_used) probe_hit("config_read_failed_once_inside_the_file");
+                    if (ok) { if (reading == 0 && ref_cut_used) probe_hit("file_taken_to_end_at_the_failed_read"); break; }
                 }
-                compare_traces("parse");
+                ref_use_cut = 1;
             }
             balanced = (depth == entry_ctx);
             if (simfd_open_streams()) sim_fail("INVARIANT(files-closed)", "%d config streams are still open after spifconf_parse returned", simfd_open_streams());
@@ -577,7 +609,8 @@ static void gen_c09(plan_t *p, rng_t *r)
     o = plan_op(p, 0, "parse", 1, (long)rng_below(r, 3)); op_str(o, "root.cfg", 8);
     { int nf = rng_range(r, 0, 6);
       for (int q = 0; q < nf; q++) {
-          if (rng_chance(r, 1, 2)) { static const int lims[] = { 1, 2, 7, 100, 4095, 4096 }; op_fault(o, FAULT(FC_READ, FO_SHORT, lims[rng_below(r, 6)])); }
+          if (rng_chance(r, 1, 12)) op_fault(o, FAULT(FC_READ, FO_ETRANSIENT, 0));      /* this read fails once (EINTR); the stream is not broken */
+          else if (rng_chance(r, 1, 2)) { static const int lims[] = { 1, 2, 7, 100, 4095, 4096 }; op_fault(o, FAULT(FC_READ, FO_SHORT, lims[rng_below(r, 6)])); }
           else { static const int outs[] = { FO_FULL, FO_FULL, FO_FULL, FO_ENOENT, FO_EMFILE, FO_EACCES }; int out = outs[rng_below(r, q == 0 ? 3 : 6)];
                  op_fault(o, FAULT(FC_OPEN, out, out == FO_FULL && rng_chance(r, 1, 3) ? 1 : 0)); }
       } }
